@@ -99,9 +99,9 @@ FltDivV(x0, y0) ==
 (* ---- terms <-> values --------------------------------------------------- *)
 (* "-0" is the float negative zero: numerically zero *)
 ValOf(t) == [n |-> t.n, e |-> t.e, tag |-> IF t.s \in {"-0", "+1", "-1"} THEN "" ELSE t.s,
-             d |-> IF t.k = "int" /\ t.s = "+1" THEN 1 ELSE IF t.k = "int" /\ t.s = "-1" THEN -1 ELSE 0]
+             d |-> IF t.s = "+1" THEN 1 ELSE IF t.s = "-1" THEN -1 ELSE 0]
 IntTerm(v) == LET w == NormV(v) IN T("int", IF w.d = 1 THEN "+1" ELSE IF w.d = -1 THEN "-1" ELSE "", w.n, w.e, <<>>, <<>>)
-FltTerm(v) == LET w == NormV(v) IN T("flt", w.tag, w.n, w.e, <<>>, <<>>)
+FltTerm(v) == LET w == NormV(v) IN T("flt", IF w.d = 1 THEN "+1" ELSE IF w.d = -1 THEN "-1" ELSE w.tag, w.n, w.e, <<>>, <<>>)
 (* canonical (normalised) form of a numeric term; other terms unchanged      *)
 NormNum(t) == IF t.k = "int" THEN IntTerm(ValOf(t))
               ELSE IF t.k = "flt" THEN FltTerm(ValOf(t)) ELSE t
